@@ -18,6 +18,7 @@ _cache = {}
 
 def define_entities(db):
     from pony.orm import Required, Optional, Set, PrimaryKey
+    from datetime import date
     class G(db.Entity):
         id = PrimaryKey(int)
         name = Required(str)
@@ -30,6 +31,7 @@ def define_entities(db):
     class T(db.Entity):
         id = PrimaryKey(int)
         w = Required(int)
+        d = Optional(date)
         gs = Set(G)
     class P(db.Entity):
         id = PrimaryKey(int)
@@ -116,6 +118,9 @@ def t_atoms():
     # paths over two collection hops whose items are reached along one path each (many-to-many, then one-to-many)
     return ['count(t.gs.ps) > x', 'len(t.gs.ps) == x', 'x in t.gs.ps.a', 'x not in t.gs.ps.b', 'sum(t.gs.ps.a) > x', 'max(t.gs.ps.b) == x', 'min(t.gs.ps.a) < x', 't.gs.ps', 'not t.gs.ps',
             'exists(p for p in t.gs.ps if p.a > x)', 'count(t.gs.ps) > count(t.gs)', 'len(t.gs) == x', 'sum(t.gs.n) > x', 'x in t.gs.n', 't.w in t.gs.ps.a',
+            # calendar dates: parts, comparisons with a parameter and with a constant
+            't.d.year == x', 't.d.month > x', 't.d.day == t.w', 't.d < dd', 't.d == dd', 't.d is None', 't.d >= date(2020, 2, 3)', 't.d.year == dd.year', 't.d != dd or t.d.month == x',
+            't.d.year * 100 + t.d.month == x', 'dd <= t.d',
             'exists(g for g in t.gs if len(g.ps) > x)', 'not exists(g for g in t.gs if g.n is None)', 'x in t.gs.tags.w', 'not t.gs.tags', 'max(t.gs.tags.w) > t.w']
 
 
@@ -133,7 +138,8 @@ def g_atoms():
             'exists(t for t in T if g in t.gs and t.w == x)', 'len(g.tags) > len(g.ps)', 'min(t.w for t in g.tags) < x', 'g.n in g.tags.w']
 
 
-SCOPE = {'x': INT(1), 'y': STR('a'), 'z': ('tuple', (1, 2)), 'e': ('tuple', ())}
+import datetime as _dt
+SCOPE = {'x': INT(1), 'y': STR('a'), 'z': ('tuple', (1, 2)), 'e': ('tuple', ()), 'dd': ('date', _dt.date(2020, 1, 2))}
 
 
 def programs(tier, rng):
@@ -184,7 +190,7 @@ def programs(tier, rng):
     for a in t_atoms():
         add('(t for t in T if %s)' % a, 't-atom')
         add('(t for t in T if not (%s))' % a, 't-not-atom')
-    for e in ['(t.id, count(t.gs.ps))', '(t.id, sum(t.gs.ps.a), len(t.gs))', '(t.id, max(t.gs.ps.b))', '(t.id, t.w, len(t.gs))']:      # (grouping columns include the key: one group per object)
+    for e in ['(t.id, count(t.gs.ps))', '(t.id, sum(t.gs.ps.a), len(t.gs))', '(t.id, max(t.gs.ps.b))', '(t.id, t.w, len(t.gs))', '(t.id, t.d)', 't.d.month', '(t.d.year, t.d.day, t.id)']:      # (grouping columns include the key: one group per object)
         add('(%s for t in T)' % e, 't-projection')
     # a select list consisting ONLY of aggregates is a grand-total query in pony (documented aggregate-query form), which has no
     # per-row Python counterpart: aggregates appear next to a non-aggregate column here
